@@ -364,13 +364,15 @@ def _merge_fmt(path):
     return " ; ".join(x[1] if x[0] == "raw" else ("fmt(tpl:%r; %s)" % (x[1], ", ".join(x[2])) if x[2] else "fmt(tpl:%r)" % (x[1],)) for x in out)
 
 
-def render_rule(rep, prog, cfg):
+def render_rule(rep, prog, cfg, only=None):
     rule = "C15.render"
     n = 0
     for imp, b in impl_methods(prog, "command::Argument", "render"):
         name = imp["info"]["self"]
         if name.endswith("filter::Filter"):
-            continue        # filter expressions: C11 (not applicable)
+            continue        # filter expressions: C11
+        if only is not None and name not in only:
+            continue
         n += 1
         # what is written may go through a private helper of the module (`render_escaped`) or through the renderer of the wrapped
         # value (`self.0.render(buf)` for a newtype): spliced in (A12), so that the write events are those of the whole renderer
@@ -396,7 +398,7 @@ def render_rule(rep, prog, cfg):
             got = sorted(exp)        # the same bytes, written by a different number of `write!`s
         rep.check(got == sorted(exp), rule, "%s/%s" % (cfg, name), b.loc(b.span),
                   "Argument::render for %s writes %s; the reviewed reference is %s" % (name, got, sorted(exp)), detail={"events": got})
-    rep.floor(rule, cfg + "/Argument impls", n, 16)
+    rep.floor(rule, cfg + "/Argument impls", n, 16 if only is None else len(only))
 
 
 def enums_rule(rep, prog, cfg):
@@ -758,7 +760,7 @@ def setter_rule(rep, prog, cfg):
     rep.floor(rule, cfg + "/by-value setters", n, 15)
 
 
-def choke_rule(rep, prog, cfg):
+def choke_rule(rep, prog, cfg, separator_only=False):
     rule = "C15.choke"
     aa = body_by_name(prog, "mpd_protocol::command::Command::add_argument")
     if len(aa) != 1:
@@ -778,7 +780,8 @@ def choke_rule(rep, prog, cfg):
     rep.check(ok, rule, cfg + "/one separator before each argument", b.loc(b.span),
               "add_argument does not write exactly one space (0x20) before the rendered argument: a parameter would not occupy exactly one argument slot")
     # textual impls go through the single escaping routine: covered by C15.render (slice(escape_argument(self)))
-    quote_trigger_rule(rep, prog, cfg)
+    if not separator_only:
+        quote_trigger_rule(rep, prog, cfg)
 
 
 WS_SETS = {"core::char::methods::<impl char>::is_whitespace": {0x20, 0x09, 0x0A, 0x0B, 0x0C, 0x0D, 0x85, 0xA0},
